@@ -10,7 +10,7 @@ THOROUGH_CONFIGS = ['dot', 'router']
 
 
 MANIFEST = {
-    "text": "Static decision that the action is a function of the matched *set*: the sort dominates the fold; the rule order is total and consistent (Ord and Eq read exactly {rank, id}, partial_cmp delegates, direction descending on both keys, Route delegates to the handler); and every iteration over a hash-ordered container reachable from the action builder either feeds an order-insensitive sink or is followed by a sort of the sink with a total comparator.",
+    "text": "Static decision that the action is a function of the matched *set*: the sort dominates the fold; the rule order is total and consistent (Ord and Eq read exactly {rank, id}, partial_cmp delegates, direction descending on both keys, Route delegates to the handler); and every iteration over a hash-ordered container reachable from the action builder either feeds an order-insensitive sink or is followed by a sort of the sink with a total comparator; tree lookups used by insertion visit every sibling that can hold the pattern (shared with C08), so the tree content does not depend on insertion order.",
     "technique": "static analysis: dominance, field-effect sets, unordered-iteration -> ordered-sink audit over the call graph",
 }
 
@@ -190,3 +190,5 @@ def run(ctx):
     r11_1(ctx)
     r11_2(ctx)
     r11_3(ctx)
+    from .c08 import r08_1
+    r08_1(ctx, rid="R11.4")
